@@ -42,7 +42,7 @@ def TokN (t u : Token) : Prop :=
     ((t.kind = .text ∧ t.value = u.value) ∨
      (t.kind = .element ∧ ∃ tg : TagS, tg.ok ∧ N tg.name ∧ t.value = ds ++ tg.render ++ de ∧
         u.value = ds' ++ (renTag ρ tg).render ++ de' ∧
-        FreeOf (ds ++ de) tg.render ∧ FreeOf (ds' ++ de') (renTag ρ tg).render))
+        StripOK ds de tg.render ∧ StripOK ds' de' (renTag ρ tg).render))
 
 theorem elparse_n (hρ : RenOK ρ N) (hds : ds ≠ []) (hde : de ≠ []) (hds' : ds' ≠ []) (hde' : de' ≠ [])
     (t u : Token) (h : TokN ds de ds' de' ρ N t u) :
@@ -54,8 +54,8 @@ theorem elparse_n (hρ : RenOK ρ N) (hds : ds ≠ []) (hde : de ≠ []) (hds' :
   · obtain ⟨hkt, tg, hok, hn, hv, hv', hf, hf'⟩ := h
     have hku : u.kind = .element := by rw [← hk]; exact hkt
     have hok' := renTag_ok ρ N hρ tg hok hn
-    rw [elparse_free ds de tg.render t hds hde (render_ne_nil tg hok) hkt hv hf,
-      elparse_free ds' de' (renTag ρ tg).render u hds' hde' (render_ne_nil _ hok') hku hv' hf',
+    rw [Props.C09.elparse_of_body ds de tg.render t hds hde (render_ne_nil tg hok) hkt hv hf.1 hf.2,
+      Props.C09.elparse_of_body ds' de' (renTag ρ tg).render u hds' hde' (render_ne_nil _ hok') hku hv' hf'.1 hf'.2,
       parseBody_render tg hok, parseBody_render _ hok']
     refine ⟨rfl, ?_⟩
     intro el hel
